@@ -32,11 +32,11 @@ def exec_prop(pid, results, extra=None, n_quick=280, n_thorough=4000):
 
 
 PROPS = {
-    "C01": exec_prop("C01", {"R_C01": "mon"}),
-    "C02": exec_prop("C02", {"R_C02": "mon", "R_calls": "mon"}),
-    "C03": exec_prop("C03", {"R_C03": "mon", "R_C03s": "mon"}),
-    "C06": exec_prop("C06", {"R_C06": "mon", "R_calls": "mon"}),
-    "C07": exec_prop("C07", {"R_C07": "mon"}, extra="cyclic=1"),
-    "C13": exec_prop("C13", {"R_C13": "mon"}),
+    "C01": exec_prop("C01", {"R_C01": "mon", "R_waits": "mon"}),
+    "C02": exec_prop("C02", {"R_C02": "mon", "R_calls": "mon", "R_waits": "mon"}),
+    "C03": exec_prop("C03", {"R_C03": "mon", "R_C03s": "mon", "R_C01": "mon", "R_calls": "mon"}),
+    "C06": exec_prop("C06", {"R_C06": "mon", "R_calls": "mon", "R_waits": "mon"}),
+    "C07": exec_prop("C07", {"R_C07": "mon", "R_eager": "mon"}, extra="cyclic=1"),
+    "C13": exec_prop("C13", {"R_C13": "mon", "R_calls": "mon", "R_C01": "mon"}),
     "C14": exec_prop("C14", {"R_C14": "mon", "R_C02": "mon"}),
 }
